@@ -22,6 +22,9 @@ type caseC11 struct {
 	Prefix   kit.History  `json:"prefix"`
 	Deposits []kit.Env    `json:"deposits"`
 	Transfer kit.Transfer `json:"transfer"`
+	// Post are environment steps that happen after the deposits and before the transfer, in both
+	// runs (e.g. the bank's send switch of the denomination is turned off once the coins sit there).
+	Post []kit.Env `json:"post,omitempty"`
 }
 
 // thirdPartyEvents keeps the events of the bridges (the decoded outgoing request, incl. the CCTP
@@ -62,6 +65,10 @@ func runC11(w *world.World, c caseC11, rec *kit.Recorder) error {
 	}
 	// run A: no deposits
 	ctxA, _ := m.Ctx.CacheContext()
+	ma := &kit.Machine{W: w, Ctx: ctxA, Model: kit.NewState()}
+	for _, e := range c.Post {
+		ma.Do(kit.Step{Env: &e})
+	}
 	beforeA := w.Ledger(ctxA)
 	outA := world.Recv(ctxA, w.Stack, p)
 	deltaA := world.Diff(beforeA, w.Ledger(ctxA))
@@ -81,6 +88,9 @@ func runC11(w *world.World, c caseC11, rec *kit.Recorder) error {
 			}
 			deposited[d.Denom].Add(deposited[d.Denom], amt)
 		}
+	}
+	for _, e := range c.Post {
+		mb.Do(kit.Step{Env: &e})
 	}
 	beforeB := w.Ledger(ctxB)
 	outB := world.Recv(ctxB, w.Stack, p)
@@ -148,7 +158,7 @@ func TestC11Pairs(t *testing.T) {
 		PacketW: 60, AdminW: 25, EnvW: 15,
 		Packet: func(rt *rapid.T) kit.Transfer { return genC08Probe(rt, w) },
 		Admin:  kit.AdminOpt{ForeignSignerPct: 5, InvalidPct: 5},
-		Env:    kit.EnvOpt{Kinds: []string{"reescrow", "ftf_pause", "ftf_unpause", "blacklist", "unblacklist", "burn_limit", "next_block"}},
+		Env:    kit.EnvOpt{Kinds: []string{"reescrow", "ftf_pause", "ftf_unpause", "blacklist", "unblacklist", "burn_limit", "next_block", "send_disable", "send_enable"}},
 	}
 	rapid.Check(t, func(rt *rapid.T) {
 		c := caseC11{Prefix: kit.GenHistory(rt, prefixOpt)}
@@ -194,6 +204,11 @@ func TestC11Pairs(t *testing.T) {
 				d.Amount = pick(rt, fmt.Sprintf("dep/%d/big", i), []string{"9223372036854775807", "9223372036854775808", "18446744073709551616", "340282366920938463463374607431768211456"})
 			}
 			c.Deposits = append(c.Deposits, d)
+		}
+		if kit.Chance(rt, "post/send-switch", 12) {
+			// the bank's send switch of a denomination goes off while the coins sit on the account
+			c.Post = append(c.Post, kit.Env{Kind: "send_disable", Denom: pick(rt, "post/send-switch/denom", []string{c.Transfer.Denom, c.Transfer.Denom, world.Ufoo, world.Uusdc})})
+			rec.Label("c11", "send switch turned off after the deposits")
 		}
 		rec.Eval()
 		if err := runC11(w, c, rec); err != nil {
